@@ -8,6 +8,7 @@ import Driver.Img
 import Sth.Model.Translate
 import Sth.Model.Recover
 import Sth.Model.CrashImage
+import Sth.Model.CrashImageOpen
 
 namespace Driver.Crash
 open Sth Driver Driver.Img
@@ -129,8 +130,18 @@ def step (st : St) (l : Line) : St × List Msg :=
       -- first events, so the count is one too high
       else if crashImage st.prevDisk stream (evCount - 1) true == im.disk then ([], [Msg.flag "flush-image-in-model"] ++ [Msg.flag "flush-image-early-rollover"])
       else ([Msg.corr (tag ++ s!"image of a crash inside Flush is not the model's crash image after {evCount} of {streamLength stream} events")], [])
-    let corr := corr ++ corrImg
-    let flags := flagImg ++ (if drainFiles.isEmpty then [] else [Msg.flag "c11-drain-after-recovery"]) ++
+    -- (d) tie of Sth/Model/CrashImageOpen.lean: an image captured while a plain OpenStore ran (no re-bucketing, no upgrade) is the
+    -- directory after one of the model's open steps (or the directory before the open)
+    let rebucketing : Bool := match st.prevDisk.ihdr with | some h => h.bits != st.seq.cfg.bits | none => false
+    let inOpen := st.lastOp == "open" && !rebucketing && !st.upgradingOpen && im.extra.isEmpty && !im.badIdxHdr && !im.badPriHdr &&
+      st.seq.store.mem.isSome && (point.startsWith "open." || point.startsWith "primary.open." || point.startsWith "index.open.")
+    let (corrOpen, flagOpen) : List Msg × List Msg :=
+      if !inOpen then ([], []) else
+      let steps := st.prevDisk :: openSteps st.seq.cfg st.prevDisk
+      if steps.any (· == im.disk) then ([], [Msg.flag "open-image-in-model"] ++ (if im.disk == st.prevDisk then [] else [Msg.flag "open-image-interior"]))
+      else ([Msg.corr (tag ++ s!"image of a crash inside OpenStore is not the directory after any of the model's {steps.length - 1} open steps")], [])
+    let corr := corr ++ corrImg ++ corrOpen
+    let flags := flagImg ++ flagOpen ++ (if drainFiles.isEmpty then [] else [Msg.flag "c11-drain-after-recovery"]) ++
       (if drainFiles.any (fun f => f.1 < curFile ∧ f.2.1 > 0) then [Msg.flag "c11-drain-leftover-file"] else []) ++ [Msg.flag "crash-image"] ++ (if inTranslate then [Msg.flag "translate-crash"] else []) ++
       (if inTranslate && openRes = "err" then [Msg.flag "translate-crash-open-refused"] else []) ++ (if ra.get "tear" ≠ "none" then [Msg.flag "torn"] else []) ++
       [Msg.flag ("at:" ++ (point.splitOn ".").headD "")]
